@@ -53,7 +53,30 @@ fn outcome_name(o: &PushInterpreterState) -> &'static str {
 struct Shadow {
     needed: Option<usize>,
     growth_at: Option<usize>,
-    after: Vec<Snap>, // after[k] = state after k steps (after[0] = after the copy to CODE)
+    /// digest of the state after k steps (index 0 = after the copy to CODE)
+    digests: Vec<u64>,
+    /// full snapshots for the first steps, the steps around the budget and the last step
+    /// (keeping all of them would be quadratic for long runs)
+    full: std::collections::BTreeMap<usize, Snap>,
+    size0: usize,
+}
+
+impl Shadow {
+    fn check(&self, k: usize, got: &Snap) -> Result<(), String> {
+        match self.digests.get(k) {
+            None => Err(format!("shadow accounting stopped after {} steps", self.digests.len() - 1)),
+            Some(d) => {
+                if *d == got.digest() {
+                    Ok(())
+                } else {
+                    Err(match self.full.get(&k) {
+                        Some(want) => want.diff_text(got),
+                        None => format!("digest of the state after {} single steps differs", k),
+                    })
+                }
+            }
+        }
+    }
 }
 
 fn shadow(init: &Snap, is: &mut InstructionSet, cache: &InstructionCache, max_steps: usize, cap: usize) -> Result<Shadow, String> {
@@ -62,7 +85,9 @@ fn shadow(init: &Snap, is: &mut InstructionSet, cache: &InstructionCache, max_st
     if let Some(v) = st.exec_stack.copy_vec(st.exec_stack.size()) {
         st.code_stack.push_vec(v);
     }
-    let mut sh = Shadow { needed: None, growth_at: None, after: vec![Snap::of(&st)] };
+    let s0 = Snap::of(&st);
+    let mut sh = Shadow { needed: None, growth_at: None, digests: vec![s0.digest()], full: Default::default(), size0: s0.size9() };
+    sh.full.insert(0, s0);
     for k in 1..=max_steps {
         if st.exec_stack.size() == 0 {
             sh.needed = Some(k - 1);
@@ -71,8 +96,13 @@ fn shadow(init: &Snap, is: &mut InstructionSet, cache: &InstructionCache, max_st
         let before = size9(&st);
         guarded(|| PushInterpreter::step(&mut st, is, cache))?;
         let after = size9(&st);
-        sh.after.push(Snap::of(&st));
-        if sh.growth_at.is_none() && after > before + cap {
+        let snap = Snap::of(&st);
+        sh.digests.push(snap.digest());
+        let grew = sh.growth_at.is_none() && after > before + cap;
+        if k <= 3 || k + 8 >= max_steps || grew || st.exec_stack.size() == 0 {
+            sh.full.insert(k, snap);
+        }
+        if grew {
             sh.growth_at = Some(k);
         }
     }
@@ -89,6 +119,8 @@ fn rand_free(names: &[String]) -> Vec<String> {
 pub fn run(ctx: &mut Ctx) {
     let (mut is, names) = new_iset();
     is.add("VERIF.SLEEP".to_string(), Instruction::new(sleep_instr));
+    // resource envelope (as in C01): a program that explodes is skipped, not judged
+    crate::props::c01::wrap_all(&mut is, &names);
     let cache = sorted_cache(&is);
     let alphabet = rand_free(&names);
     install_observer();
@@ -99,10 +131,20 @@ pub fn run(ctx: &mut Ctx) {
             continue;
         }
         let mut r = Rng::derive(ctx.seed, &[2, k]);
-        let limit: i32 = *r.pick(&[-1, 0, 1, 2, 3, 5, 10, 17, 40, 100]);
-        let cap: usize = *r.pick(&[0, 1, 2, 3, 5, 8, 20, 500]);
+        // one case in 25 uses the default limits (1000 steps, cap 500)
+        // mostly small limits; one case in 25 uses the default (1000); one in 40 a large budget
+        // (2048..10000: thresholds, polling intervals and counters tied to the budget's magnitude)
+        let big_limit = k % 40 == 39 && (ctx.profile == "release" || k % 320 == 39);
+        let limit: i32 = if big_limit {
+            *r.pick(&[2047, 2048, 2049, 3000, 4097, 5000, 10000])
+        } else if k % 25 == 24 {
+            1000
+        } else {
+            *r.pick(&[-1, 0, 1, 2, 3, 5, 10, 17, 40, 100])
+        };
+        let cap: usize = if big_limit { 100_000 } else if k % 25 == 24 { 500 } else { *r.pick(&[0, 1, 2, 3, 5, 8, 20, 500]) };
         // ---- program families --------------------------------------------------------------
-        let family = k % 8;
+        let family = if big_limit { k / 40 % 2 } else { k % 8 };
         let mut s = if family >= 5 { gen::snap(&mut r, &StateOpts { vals: Vals::Small, max_depth: 3, graphs: false, io: true, bindings: true, flags: false, random_cfg: false }, &alphabet) } else { Snap::empty() };
         s.e.clear();
         s.q = false;
@@ -155,6 +197,7 @@ pub fn run(ctx: &mut Ctx) {
         s.cfg.eval_time_limit = 600_000; // time can never be the cause here
         ctx.rec.case_marker(k, &format!("run limit={} cap={} program {}", limit, cap, prog));
         let budget = (limit.max(0) as usize) + 3;
+        crate::props::c01::ENV_EXIT.with(|e| e.set(false));
         let sh = match shadow(&s, &mut is, &cache, budget + 2, cap) {
             Ok(x) => x,
             Err(p) => {
@@ -166,6 +209,10 @@ pub fn run(ctx: &mut Ctx) {
         let mut st = build_state(&s);
         EVENTS.with(|e| e.borrow_mut().clear());
         let res = guarded(|| PushInterpreter::run(&mut st, &mut is));
+        if crate::props::c01::ENV_EXIT.with(|e| e.get()) {
+            ctx.rec.count("outside_envelope_skipped", 1);
+            continue;
+        }
         ctx.rec.count("runs", 1);
         let outcome = match res {
             Ok(o) => o,
@@ -190,13 +237,10 @@ pub fn run(ctx: &mut Ctx) {
         }
         // (b) the state left behind is the state after the same number of single steps
         //     (a NoErrors run ends with one more step() call that finds EXEC empty and changes nothing)
-        match sh.after.get(steps_done) {
-            Some(want) => {
-                if *want != fin {
-                    bad(ctx, "state-differs-from-single-stepping", format!("after {} steps: {}", steps_done, want.diff_text(&fin)));
-                }
-            }
-            None => bad(ctx, "too-many-steps", format!("{} steps executed, shadow stopped at {}", steps_done, sh.after.len() - 1)),
+        if steps_done >= sh.digests.len() {
+            bad(ctx, "too-many-steps", format!("{} steps executed, shadow stopped at {}", steps_done, sh.digests.len() - 1));
+        } else if let Err(t) = sh.check(steps_done, &fin) {
+            bad(ctx, "state-differs-from-single-stepping", format!("after {} steps: {}", steps_done, t));
         }
         // (c) the outcome
         let growth_in_budget = sh.growth_at.map(|g| (g as i64) <= l).unwrap_or(false);
@@ -258,7 +302,7 @@ pub fn run(ctx: &mut Ctx) {
                     if j != 0 {
                         bad(ctx, "trace|start-not-first", format!("Start at position {}", j));
                     }
-                    if e.my_size != sh.after[0].size9() {
+                    if e.my_size != sh.size0 {
                         bad(ctx, "trace|copy-to-code", "state size after the initial copy to CODE differs from the shadow".into());
                     }
                     prev_size = Some(e.my_size);
